@@ -206,7 +206,16 @@ class Assertion(TypedExpression):
         body_expr = self.body
         if self.between:
             body_expr = body_expr.model_copy()
-            body_expr.before = list(self.between) + list(body_expr.before)
+            own_before = list(body_expr.before)
+            if (
+                self.between[-1] is empty_line
+                and own_before
+                and own_before[0] in (empty_line, linebreak)
+            ):
+                # One blank line, not two: the body may have inherited its own
+                # blank line from a `let … in` wrapper that was removed.
+                own_before = own_before[1:]
+            body_expr.before = list(self.between) + own_before
         body_str = body_expr.rebuild(indent=indent, inline=False)
         separator = "" if assert_line.endswith("\n") else "\n"
         return apply_trailing_trivia(
